@@ -212,6 +212,27 @@ func (g *Gen) existingValue(t, cn string, c Col, pending map[string][]string) in
 	return g.value(c, pending)
 }
 
+// mixValue draws some elements (pairs) of a and some of b, without repeating an element (a key).
+func (g *Gen) mixValue(c Col, a, b interface{}) interface{} {
+	out := []interface{}{}
+	seen := map[string]bool{}
+	for _, src := range []interface{}{a, b} {
+		xs, _ := src.([]interface{})
+		for _, x := range xs {
+			k := atomKey(x)
+			if p, ok := x.([]interface{}); ok && KindOf(c) == "map" && len(p) == 2 {
+				k = atomKey(p[0])
+			}
+			if seen[k] || !g.chance(0.6) || c.Max > 0 && len(out) >= c.Max {
+				continue
+			}
+			seen[k] = true
+			out = append(out, x)
+		}
+	}
+	return out
+}
+
 func (g *Gen) cond(t string, pending map[string][]string) []interface{} {
 	tb := g.S.Tables[t]
 	cols := tb.ColNames()
@@ -232,6 +253,10 @@ func (g *Gen) cond(t string, pending map[string][]string) []interface{} {
 	cn := cols[g.pick(len(cols))]
 	c := tb.Cols[cn]
 	v := g.existingValue(t, cn, c, pending)
+	if k := KindOf(c); (k == "set" || k == "map") && g.chance(0.4) {
+		// an argument that overlaps a row's value only in part
+		v = g.mixValue(c, v, g.value(c, pending))
+	}
 	switch KindOf(c) {
 	case "atom":
 		fns := []string{"==", "!=", "includes", "excludes"}
